@@ -40,7 +40,7 @@ theorem mem_addOne (m : Msg) (acc : Tree × List Evt) (ei : EI) (a : List Nat) :
   · rename_i e he
     have hin : ei.addr ∈ addrs t := (findE_isSome_iff t ei.addr).mp (by rw [he]; rfl)
     simp only [addrs, List.map_map]
-    have : (List.map ((fun e : E => e.addr) ∘ fun e : E => if e.addr = ei.addr then { e with feats := m.feats.filter (·.ent = ei.addr) } else e) t)
+    have : (List.map ((fun e : E => e.addr) ∘ fun e : E => if e.addr = ei.addr then { e with desc := ei.desc, feats := m.feats.filter (·.ent = ei.addr) } else e) t)
         = List.map (fun e : E => e.addr) t := by
       apply List.map_congr_left
       intro e _
@@ -124,7 +124,7 @@ theorem c06_full_converges (m : Msg) (t : Tree) (a : List Nat) :
   have hsplit : (fullDiff m t).ents =
       ((m.ents.filter fun ei => (findE t ei.addr).isNone).map fun ei => { ei with chg := Chg.added }) ++
       ((t.filter fun e => !((m.ents.filter fun ei => (findE t ei.addr).isSome).map (·.addr)).contains e.addr).map
-        fun e => ({ addr := e.addr, typ := e.typ, chg := .removed } : EI)) := rfl
+        fun e => ({ addr := e.addr, typ := e.typ, chg := .removed, desc := none } : EI)) := rfl
   rw [hsplit, List.foldl_append]
   rw [mem_fold_removed _ _ _ a (by intro ei h; obtain ⟨e, _, rfl⟩ := List.mem_map.mp h; rfl)]
   rw [mem_fold_added _ _ _ a (by intro ei h; obtain ⟨e, _, rfl⟩ := List.mem_map.mp h; rfl)]
@@ -157,7 +157,7 @@ theorem c06_full_converges (m : Msg) (t : Tree) (a : List Nat) :
       exact List.mem_map.mpr ⟨e, he, rfl⟩
 
 /-- the mixed notification that goes wrong as written (B.11) converges here -/
-example : addrs (notifyFullFixed ⟨[⟨[0], 1, .none⟩, ⟨[2], 3, .none⟩], []⟩ [⟨[0], 1, []⟩, ⟨[1], 2, []⟩]).1 = [[0], [2]] := by
+example : addrs (notifyFullFixed ⟨[⟨[0], 1, .none, none⟩, ⟨[2], 3, .none, none⟩], []⟩ [⟨[0], 1, none, []⟩, ⟨[1], 2, none, []⟩]).1 = [[0], [2]] := by
   decide
 
 end Spine.Disc
